@@ -71,6 +71,7 @@ func (fr *frame) get(key ssa.Value) value {
 	case *ssa.Const:
 		return constValue(key)
 	case *ssa.Global:
+		key = fr.i.aliasGlobal(key)
 		if r, ok := fr.i.globals[key]; ok {
 			fr.i.checkGlobal(fr, key)
 			return r
@@ -88,6 +89,24 @@ func (fr *frame) get(key ssa.Value) value {
 		return r
 	}
 	panic(fmt.Sprintf("get: no value for %T: %v", key, key.Name()))
+}
+
+// aliasGlobal maps the error variables of package os, whose init is not run,
+// to the variables of internal/oserror they are initialised from (via io/fs).
+func (i *interpreter) aliasGlobal(g *ssa.Global) *ssa.Global {
+	if g.Pkg == nil || g.Pkg.Pkg.Path() != "os" || i.initRun[g.Pkg] {
+		return g
+	}
+	switch g.Name() {
+	case "ErrInvalid", "ErrPermission", "ErrExist", "ErrNotExist", "ErrClosed":
+		fs := g.Pkg.Prog.ImportedPackage("internal/oserror")
+		if fs != nil && i.initRun[fs] {
+			if a, ok := fs.Members[g.Name()].(*ssa.Global); ok {
+				return a
+			}
+		}
+	}
+	return g
 }
 
 // checkGlobal aborts the path if a global of a package whose init has not
